@@ -3,7 +3,7 @@ from contracts import pcovr as P
 from contracts import decomp as D
 def extend_ext(ext):
     P.extend_ext(ext); D.extend_ext(ext)
-UNITS = [P.u_sample_space, P.u_feature_space, P.objective_lemma, lambda: P.u_fit('sample')] + list(D.UNITS)
+UNITS = [P.u_sample_space, P.u_feature_space, P.objective_lemma, lambda: P.u_fit('sample'), lambda: P.u_fit('feature')] + list(D.UNITS)
 RT = True
 TRUSTED = ["matrix layer (see C03)", "cited, not machine-checked: Ky Fan's maximum principle (the trace of Q^T K Q over orthonormal Q is maximised by the leading eigenvectors) turns the proved objective identity into optimality; monotonicity of the two losses in the mixing follows from optimality at two mixings (four-line inequality argument, bounded check at run time)",
            "assumed modular contracts of C03"]
